@@ -248,9 +248,20 @@ def render(case):
     return out
 
 
+def _same_entry(a, b):
+    if a == b:
+        return True
+    # a manager operation that raises in both: WHICH of several independent failing tasks surfaces first follows
+    # iteration order - only the fact of raising is compared (expression programs stay strict: no manager involved)
+    if isinstance(a, list) and isinstance(b, list) and len(a) == 3 and len(b) == 3 and a[0] == b[0] \
+            and a[1] == b[1] == "exc" and a[0] not in ("build", "pickle", "reparse", "load"):
+        return True
+    return False
+
+
 def first_difference(ta, tb):
     for i, (a, b) in enumerate(zip(ta, tb)):
-        if a != b:
+        if not _same_entry(a, b):
             return i, a, b
     if len(ta) != len(tb):
         i = min(len(ta), len(tb))
